@@ -28,6 +28,7 @@ func init() {
 		"retention is judged after a final quiet period of 75 virtual seconds; files whose age crosses the keep-days threshold within that period are not judged; only names with the own prefix and a .log extension, and clearly foreign names, are generated (own prefix with other extensions is a gray zone)",
 		"suppression of a repeated id is legitimate iff a line with the same id was emitted less than the interval (plus 50 ms slack) earlier; the converse (must suppress) is only judged in single-task runs without clock steps",
 		"Read lengths are positive (a negative length panics inside make, outside the statement); log files are append-only, so a returned window is compared with the final content",
+		"open-failure fault (one run in five, after the first open, at most twice): an open for append of a log file fails with EMFILE/ENOSPC/EACCES; in runs where one fired a line may stay in the file the logger already had (any own dated file up to the call's date) but must still not be lost",
 		"os, io/ioutil and log are the simulator's in-memory models; one O_APPEND write is atomic as for regular files",
 	}
 	realComponents["C17"] = []string{"logger/logfile.FileLogger (NewFileLogger, all log methods, run/process/openFile/clearOldLog, Read, ApplyConfig)", "util/hmap.StringLongLinkedMap (rate limiter)", "util/dateutil", "util/stringutil, util/ansi"}
